@@ -582,7 +582,9 @@ pub fn run_check(check: &dyn Check, tier: Tier) -> i32 {
     let per_thread = plan.cases.div_ceil(threads);
     let sample_every = (per_thread / 2).max(1);
     let done_cases = AtomicU64::new(0);
-    if unknown_failures.lock().unwrap().is_empty() {
+    let keep_going = std::env::var_os("VERIF_KEEP_GOING").is_some();
+    let seen_sigs: Mutex<std::collections::HashSet<String>> = Mutex::new(Default::default());
+    if unknown_failures.lock().unwrap().is_empty() || keep_going {
         std::thread::scope(|scope| {
             for t in 0..threads {
                 let stats = &stats;
@@ -590,6 +592,8 @@ pub fn run_check(check: &dyn Check, tier: Tier) -> i32 {
                 let failure = &failure;
                 let known = &known;
                 let done_cases = &done_cases;
+                let seen_sigs = &seen_sigs;
+                let unknown_failures = &unknown_failures;
                 scope.spawn(move || {
                     let cfg = Config {
                         cases: per_thread as u32,
@@ -597,6 +601,8 @@ pub fn run_check(check: &dyn Check, tier: Tier) -> i32 {
                         rng_seed: RngSeed::Fixed(mix(seed, t as u64 + 1)),
                         rng_algorithm: RngAlgorithm::ChaCha,
                         max_shrink_iters: 4000,
+                        // a failing case may be slow (e.g. waits for late releases): bound shrinking by time too
+                        max_shrink_time: 90_000,
                         max_local_rejects: 1_000_000,
                         max_global_rejects: 1_000_000,
                         ..Config::default()
@@ -636,6 +642,14 @@ pub fn run_check(check: &dyn Check, tier: Tier) -> i32 {
                                 if let Some(k) = is_known(known, check.id(), sig) {
                                     if counting.get() {
                                         *stats.lock().unwrap().known_hits.entry(known[k].signature.clone()).or_default() += 1;
+                                    }
+                                    Ok(())
+                                } else if keep_going {
+                                    // survey mode (VERIF_KEEP_GOING=1): record one unshrunk case per new signature and go on
+                                    let mut seen = seen_sigs.lock().unwrap();
+                                    if seen.insert(sig.clone()) {
+                                        let path = write_replay(check.id(), &format!("fail-{:016x}", fnv(&choice)), &choice, sig, detail, None);
+                                        unknown_failures.lock().unwrap().push((path, format!("{} :: {}", sig, truncate(detail, 300))));
                                     }
                                     Ok(())
                                 } else if sig == "hang" || sig.starts_with("abort:") {
